@@ -181,7 +181,9 @@ def safe(fn):
 def scenario(kind, auth, script, ngood, burst=1, hostile_magic=None):
     """returns a function main() -> observations (run inside the scheduler)"""
     def main():
-        srv = H.make_server(kind, authenticator=authenticator if auth else None, nthreads=burst + 4)
+        # "pool1": a thread pool with a single worker - every worker a bad client costs the server is then felt at once
+        srv = H.make_server("pool" if kind == "pool1" else kind, authenticator=authenticator if auth else None,
+                            nthreads=1 if kind == "pool1" else burst + 4)
         st = S.SimThread(target=srv.start, name="server")
         st.start()
         S.sim_time.sleep(0.2)
@@ -377,6 +379,12 @@ def default_cases(tier):
                     out.append((kind, auth, name, ngood, 1))
             out.append((kind, auth, "stall-mid-header", 1, 3))
             out.append((kind, auth, "immediate-disconnect", 1, 3))
+    # a pool with ONE worker against the scripts that send complete (malformed) packets and then go away
+    for auth in (False, True):
+        for name in ("garbage-payload", "random-bytes", "valid-then-garbage", "absurd-length-then-close", "missing-trailer",
+                     "garbage-then-reset", "forged-class-reference-then-reset"):
+            out.append(("pool1", auth, name, 1, 1))
+            out.append(("pool1", auth, name, 1, 2))
     return out
 
 
